@@ -850,8 +850,8 @@ pub fn run(cfg: &Cfg) -> (Log, Meta) {
   run_unit::<CD>(&mut log, slow, cfg, 50, "linear.SixtyCycleDay");
   run_unit::<CH>(&mut log, slow, cfg, 50, "linear.SixtyCycleHour");
   log.floor("cycle.types", 42);
-  log.floor("cycle.elements", 1_000);
-  log.floor("cycle.steps", 100_000);
+  log.floor("cycle.elements", 400);
+  log.floor("cycle.steps", 50_000);
   log.floor("cycle.unknown_names_refused", 100);
   let meta = Meta {
     rule: format!(
